@@ -235,7 +235,7 @@ def run(ctx):
                     inner = ix.inline(kids(rv)[0])
                     if tag(inner) == "call" and str(payload(inner)[0]).split("::")[-1] == "map" and len(kids(inner)) == 2 and tag(kids(inner)[1]) == "closure":
                         opt, clo = kids(inner)
-                        cf = w.by_pretty.get(payload(clo)[0])
+                        cf = w.fn_named(payload(clo)[0])
                         cps = [p2 for p2 in ix.ok_paths(cf)] if cf is not None else []
                         if len(cps) == 1 and cf.arg_count == 2:
                             mm = {sym.param(cf.key, 0, cf.param_name(0)): clo, sym.param(cf.key, 1, cf.param_name(1)): sym.unwrap(opt)}
